@@ -28,8 +28,8 @@ type D struct {
 	// LoadVal, when non-nil, resolves a load of a reassigned local to the value
 	// last stored to it on the current path.
 	LoadVal func(*ssa.UnOp) ssa.Value
-	depth        int
-	inLit        map[*ssa.Alloc]bool
+	depth   int
+	inLit   map[*ssa.Alloc]bool
 }
 
 func (p *Prog) D() *D { return &D{P: p} }
